@@ -376,6 +376,8 @@ theorem parseParams_get {I : Iface} (hI : NodupNames I) {parts : List Str} {defa
   simp only at h
   split at h
   · cases h
+  split at h
+  · cases h
   · rename_i d1 h1
     split at h
     · cases h
@@ -433,6 +435,8 @@ theorem parseParams_err {I : Iface} {parts : List Str} {defaults : List (Str × 
   unfold parseParams at h
   simp only at h
   split at h
+  · cases h; rfl
+  split at h
   · rename_i e' he
     cases h
     exact parsePositional_err he
@@ -446,19 +450,22 @@ theorem parseParams_err {I : Iface} {parts : List Str} {defaults : List (Str × 
 
 /-! ## typing of the parameter dictionary -/
 
+/-- a value of the declared type in Python's sense (`isinstance`, plus an `int` for a `float`): what the conversions
+produce and what the type check of the defaults lets through -/
 def valTy : PyVal → Ty → Bool
   | .str _, .str => true
   | .int _, .int => true
-  | .int _, .float => true            -- a driver may pass an int for a float parameter
-  | .flt l, .float => (floatParse l).isSome
+  | .bool _, .int => true
+  | .flt _, .float => true
+  | .int _, .float => true
+  | .bool _, .float => true
   | .bool _, .bool => true
   | _, _ => false
 
-def paramsOf (I : Iface) : List Param := I.positionals ++ I.keywords
+theorem valTy_eq (v : PyVal) (t : Ty) : valTy v t = pyIsInstance v t := by
+  cases v <;> cases t <;> rfl
 
-/-- the caller's defaults carry values of the declared type -/
-def DefaultsTyped (I : Iface) (defaults : List (Str × PyVal)) : Prop :=
-  ∀ k v, dget (dictOf defaults) k = some v → ∀ q ∈ paramsOf I, q.name = k → valTy v q.ty = true
+def paramsOf (I : Iface) : List Param := I.positionals ++ I.keywords
 
 theorem mem_of_dget {d : Dict} {k : Str} {v : PyVal} (h : dget d k = some v) : (k, v) ∈ d := by
   induction d with
@@ -474,26 +481,25 @@ theorem mem_of_dget {d : Dict} {k : Str} {v : PyVal} (h : dget d k = some v) : (
     · simp only [e, if_false] at h
       exact List.mem_cons_of_mem _ (ih h)
 
-/-- a decidable sufficient check for `DefaultsTyped` -/
-def defaultsTypedB (I : Iface) (defaults : List (Str × PyVal)) : Bool :=
-  (dictOf defaults).all (fun kv => (paramsOf I).all (fun q => q.name != kv.1 || valTy kv.2 q.ty))
-
-theorem defaultsTyped_of_check {I : Iface} {defaults : List (Str × PyVal)} (h : defaultsTypedB I defaults = true) :
-    DefaultsTyped I defaults := by
-  intro k v hk q hq hn
-  have h1 := (List.all_eq_true.1 h) (k, v) (mem_of_dget hk)
-  have h2 := (List.all_eq_true.1 h1) q hq
-  simp only [Bool.or_eq_true, bne_iff_ne, ne_eq] at h2
-  rcases h2 with h2 | h2
-  · exact absurd hn h2
-  · exact h2
+/-- a successful parse means the kept defaults passed the type check -/
+theorem parseParams_defaults_ok {I : Iface} {parts : List Str} {defaults : List (Str × PyVal)} {p : Dict}
+    (h : parseParams I parts defaults = .ok p) :
+    ((dictOf defaults).filter (fun kv => knownName I kv.1)).all (defaultTypeOk I) = true := by
+  unfold parseParams at h
+  simp only at h
+  split at h
+  · cases h
+  · rename_i hc
+    cases hall : ((dictOf defaults).filter (fun kv => knownName I kv.1)).all (defaultTypeOk I) with
+    | true => rfl
+    | false => rw [hall] at hc; simp at hc
 
 theorem convPos_typed {ty : Ty} {t : Str} {v : PyVal} (h : convPos ty t = .ok v) : valTy v ty = true := by
   cases ty <;> simp only [convPos] at h
   · cases h; rfl
   · split at h <;> cases h; rfl
   · split at h <;> cases h
-    rename_i hf; simpa [valTy] using hf
+    rfl
   · cases h; rfl
 
 theorem convKw_typed {ty : Ty} {t : Str} {v : PyVal} (h : convKw ty t = .ok v) : valTy v ty = true := by
@@ -501,7 +507,7 @@ theorem convKw_typed {ty : Ty} {t : Str} {v : PyVal} (h : convKw ty t = .ok v) :
   · cases h; rfl
   · split at h <;> cases h; rfl
   · split at h <;> cases h
-    rename_i hf; simpa [valTy] using hf
+    rfl
   · split at h
     · cases h; rfl
     · split at h <;> cases h; rfl
@@ -519,8 +525,9 @@ theorem knownName_iff {I : Iface} {k : Str} : knownName I k = true ↔ ∃ q ∈
 
 /-- every entry of the parsed dictionary belongs to a declared parameter and has its type -/
 theorem parseParams_typed {I : Iface} (hI : NodupNames I) {parts : List Str} {defaults : List (Str × PyVal)} {p : Dict}
-    (hd : DefaultsTyped I defaults) (h : parseParams I parts defaults = .ok p) {k : Str} {v : PyVal}
+    (h : parseParams I parts defaults = .ok p) {k : Str} {v : PyVal}
     (hk : dget p k = some v) : ∃ q ∈ paramsOf I, q.name = k ∧ valTy v q.ty = true := by
+  have hdef := parseParams_defaults_ok h
   rw [parseParams_get hI h k] at hk
   unfold specValue at hk
   split at hk
@@ -557,8 +564,29 @@ theorem parseParams_typed {I : Iface} (hI : NodupNames I) {parts : List Str} {de
         | err e => rw [hc] at hk; cases hk
     · split at hk
       · rename_i hkn
-        obtain ⟨q, hq, hn⟩ := knownName_iff.1 hkn
-        exact ⟨q, hq, hn, hd k v hk q hq hn⟩
+        have hmem : (k, v) ∈ (dictOf defaults).filter (fun kv => knownName I kv.1) :=
+          List.mem_filter.2 ⟨mem_of_dget hk, hkn⟩
+        have hok := (List.all_eq_true.1 hdef) (k, v) hmem
+        unfold defaultTypeOk expectedTy at hok
+        simp only at hok
+        cases hfk : findParam I.keywords k with
+        | some q =>
+          rw [hfk] at hok
+          exact ⟨q, List.mem_append_right _ (findParam_mem hfk), findParam_name hfk, by rw [valTy_eq]; exact hok⟩
+        | none =>
+          rw [hfk] at hok
+          cases hfp : findParam I.positionals k with
+          | some q =>
+            rw [hfp] at hok
+            exact ⟨q, List.mem_append_left _ (findParam_mem hfp), findParam_name hfp, by rw [valTy_eq]; exact hok⟩
+          | none =>
+            exfalso
+            obtain ⟨q, hq, hn⟩ := knownName_iff.1 hkn
+            rcases List.mem_append.1 hq with hq | hq
+            · have := List.find?_eq_none.1 hfp q hq
+              simp [hn] at this
+            · have := List.find?_eq_none.1 hfk q hq
+              simp [hn] at this
       · cases hk
 
 /-- the parsed dictionary only has keys the interface declares, and has all required ones -/
@@ -610,6 +638,8 @@ theorem parseParams_keys {I : Iface} (hI : NodupNames I) {parts : List Str} {def
         · cases hv
   · unfold parseParams at h
     simp only at h
+    split at h
+    · cases h
     split at h
     · cases h
     · split at h
@@ -759,9 +789,9 @@ def Cond.wf : Cond → Bool
 /-- on a value of the type it is written for a validator test does not raise -/
 theorem holds_typed (c : Cond) (v : PyVal) (hw : c.wf = true) (ht : valTy v c.ty = true) : ∃ b, c.holds v = .ok b := by
   induction c with
-  | lt k => cases v <;> simp [valTy, Cond.ty] at ht; exact ⟨_, rfl⟩
-  | gt k => cases v <;> simp [valTy, Cond.ty] at ht; exact ⟨_, rfl⟩
-  | eq k => cases v <;> simp [valTy, Cond.ty] at ht; exact ⟨_, rfl⟩
+  | lt k => cases v <;> simp [valTy, Cond.ty] at ht <;> exact ⟨_, rfl⟩
+  | gt k => cases v <;> simp [valTy, Cond.ty] at ht <;> exact ⟨_, rfl⟩
+  | eq k => cases v <;> simp [valTy, Cond.ty] at ht <;> exact ⟨_, rfl⟩
   | or a b iha ihb =>
     simp only [Cond.wf, Bool.and_eq_true, beq_iff_eq] at hw
     obtain ⟨⟨wa, wb⟩, hty⟩ := hw
@@ -779,8 +809,9 @@ theorem holds_typed (c : Cond) (v : PyVal) (hw : c.wf = true) (ht : valTy v c.ty
     · exact ⟨_, rfl⟩
     · rename_i lit
       cases hf : floatParse lit with
-      | none => rw [hf] at ht; cases ht
+      | none => exact ⟨true, by simp only [Cond.holds, hf]⟩
       | some f => exact ⟨!(floatIsStopbits f), by simp only [Cond.holds, hf]⟩
+    · exact ⟨_, rfl⟩
   | notBool => cases v <;> simp [valTy, Cond.ty] at ht; exact ⟨_, rfl⟩
   | notDevice up pre => cases v <;> simp [valTy, Cond.ty] at ht; exact ⟨_, rfl⟩
   | badHost => cases v <;> simp [valTy, Cond.ty] at ht; exact ⟨_, rfl⟩
